@@ -12,6 +12,7 @@ import (
 	"context"
 	"errors"
 	"fmt"
+	"sort"
 	"strings"
 	"sync"
 	"testing"
@@ -34,6 +35,7 @@ type pxLog struct {
 	mu    *sync.Mutex
 	roots *[]ct.ASN1Cert // what every log accepts right now
 	asked *map[string]int
+	subs  *map[string]int // submissions received, per log URL
 }
 
 func (l pxLog) AddChain(ctx context.Context, chain []ct.ASN1Cert) (*ct.SignedCertificateTimestamp, error) {
@@ -43,6 +45,9 @@ func (l pxLog) AddPreChain(ctx context.Context, chain []ct.ASN1Cert) (*ct.Signed
 	return l.sub(ctx)
 }
 func (l pxLog) sub(ctx context.Context) (*ct.SignedCertificateTimestamp, error) {
+	l.mu.Lock()
+	(*l.subs)[l.url]++
+	l.mu.Unlock()
 	select {
 	case <-ctx.Done():
 		return nil, ctx.Err()
@@ -79,18 +84,29 @@ func (r *pxRefresher) LastJSON() []byte { return nil }
 func (r *pxRefresher) Source() string   { return "scripted" }
 
 func runProxy(t *testing.T, r *rep.R) {
-	mkList := func(version string, n int) *submission.LogListData {
+	// content "std": px0..px3 usable. content "swap": px0 and px1 retired, px2..px5 usable (another edition of the list).
+	mkList := func(version, content string) *submission.LogListData {
 		logs := []dLog{}
-		for i := 0; i < n; i++ {
-			logs = append(logs, dLog{URL: fmt.Sprintf("https://px%d.example/", i), Google: i%2 == 0, Status: "usable", Interval: "none", Roots: "include", Answer: "sct"})
+		for i := 0; i < 6; i++ {
+			st := "usable"
+			if content == "swap" && i < 2 {
+				st = "retired"
+			}
+			if content != "swap" && i >= 4 {
+				continue
+			}
+			logs = append(logs, dLog{URL: fmt.Sprintf("https://px%d.example/", i), Google: i%2 == 0, Status: st, Interval: "none", Roots: "include", Answer: "sct"})
 		}
 		ll := dList(logs, time.Time{})
 		ll.Version = version
-		return &submission.LogListData{List: ll, JSON: []byte(`{"version":"` + version + `"}`)}
+		return &submission.LogListData{List: ll, JSON: []byte(`{"version":"` + version + `","content":"` + content + `"}`)}
 	}
 	leafR2 := pki.NewLeaf("c17 proxy leaf under R2", pki.LoadKey("p256-2"), dRootR2, pki.LeafOpts{NotAfter: time.Date(2024, 6, 1, 0, 0, 0, 0, time.UTC)})
 	leafR := pki.NewLeaf("c17 proxy leaf under R", pki.LoadKey("p256-2"), dRootR, pki.LeafOpts{NotAfter: time.Date(2024, 6, 1, 0, 0, 0, 0, time.UTC)})
-	seqs := [][]string{{"good"}, {"bad"}, {"bad", "bad"}, {"good", "bad"}, {"bad", "good"}, {"good", "good"}, {"bad", "good", "bad"}, {"good", "bad", "good"}}
+	// "swap": the other edition under a new version; "swap-samever": the other edition published without touching the
+	// version field; "swap-nover" / "good-nover": editions that carry no version at all (the field is optional)
+	seqs := [][]string{{"good"}, {"bad"}, {"bad", "bad"}, {"good", "bad"}, {"bad", "good"}, {"good", "good"}, {"bad", "good", "bad"}, {"good", "bad", "good"},
+		{"swap"}, {"swap-samever"}, {"swap", "bad"}, {"bad", "swap-samever"}, {"swap-samever", "good"}, {"swap", "good-samever"}, {"nover:swap-nover"}, {"nover:swap-nover", "good-nover"}, {"nover:good-nover", "swap-nover", "bad"}}
 	for _, pol := range []submission.CTPolicyType{submission.AppleCTPolicy, submission.ChromeCTPolicy} {
 		for _, sq := range seqs {
 			pol, sq := pol, sq
@@ -102,8 +118,9 @@ func runProxy(t *testing.T, r *rep.R) {
 					var mu sync.Mutex
 					roots := []ct.ASN1Cert{{Data: dRootR.DER}}
 					asked := map[string]int{}
+					subs := map[string]int{}
 					lcb := func(l *loglist3.Log) (client.AddLogClient, error) {
-						return pxLog{url: l.URL, mu: &mu, roots: &roots, asked: &asked}, nil
+						return pxLog{url: l.URL, mu: &mu, roots: &roots, asked: &asked, subs: &subs}, nil
 					}
 					inner := submission.GetDistributorBuilder(pol, lcb, nil)
 					db := func(ll *loglist3.LogList) (*submission.Distributor, error) {
@@ -112,9 +129,29 @@ func runProxy(t *testing.T, r *rep.R) {
 						}
 						return inner(ll)
 					}
-					ref := &pxRefresher{lists: []*submission.LogListData{mkList("good-0", 4)}}
+					first := "good-0"
+					if strings.HasPrefix(sq[0], "nover:") {
+						first = ""
+					}
+					ref := &pxRefresher{lists: []*submission.LogListData{mkList(first, "std")}}
+					final := "std" // the edition of the last usable list
 					for i, k := range sq {
-						ref.lists = append(ref.lists, mkList(fmt.Sprintf("%s-%d", k, i+1), 4))
+						k = strings.TrimPrefix(k, "nover:")
+						content := "std"
+						if strings.HasPrefix(k, "swap") {
+							content = "swap"
+						}
+						version := fmt.Sprintf("%s-%d", k, i+1)
+						switch {
+						case strings.HasSuffix(k, "-samever"):
+							version = first
+						case strings.HasSuffix(k, "-nover"):
+							version = ""
+						}
+						if k != "bad" {
+							final = content
+						}
+						ref.lists = append(ref.lists, mkList(version, content))
 					}
 					ctx, cancel := context.WithCancel(context.Background())
 					defer cancel()
@@ -139,8 +176,28 @@ func runProxy(t *testing.T, r *rep.R) {
 						n0 += c
 					}
 					mu.Unlock()
+					mu.Lock()
+					for k := range subs {
+						delete(subs, k)
+					}
+					mu.Unlock()
 					if _, err := p.AddChain(ctx, [][]byte{leafR2.DER, dRootR2.DER}, false); err != nil {
 						viol("proxy: stale root knowledge after a log-list update", "the logs have accepted root R2 for 4.5 h (root refresh interval 1 h), yet at +5h a chain under R2 is refused: %v (get-roots calls so far: %d)", err, n0)
+					}
+					// the list in force is the last usable one delivered (hours ago): its retired logs are not contacted, and no log outside it is
+					mu.Lock()
+					var wrong []string
+					for u, c := range subs {
+						var i int
+						fmt.Sscanf(u, "https://px%d.example/", &i)
+						if c > 0 && ((final == "swap" && i < 2) || (final == "std" && i >= 4)) {
+							wrong = append(wrong, u)
+						}
+					}
+					mu.Unlock()
+					if len(wrong) > 0 {
+						sort.Strings(wrong)
+						viol("proxy: submission sent to logs the log list in force does not offer", "at +5h, with the %q edition delivered hours ago, the submission contacted %v", final, wrong)
 					}
 					cancel()
 					synctest.Wait()
